@@ -153,6 +153,8 @@ def main():
             inputs.append(mods)
     for i in range(400 if thorough else 40):
         inputs.append(faultgen.clash_modules(rng.fork("clash%d" % i)))
+    for src in faultgen.cast_programs():
+        inputs.append([("c.pn", src)])
     # dependency graphs of constants and structures in shuffled declaration order, with and without cycles (the
     # compiler orders and partially generates these before anything else: a place where failures went unreported)
     import c11
